@@ -1,5 +1,6 @@
 import Req.Driver.Proto
 import Req.Pool.Lockset
+import Req.Pool.Monitor
 /-! Driver lanes of C09. -/
 namespace Req.Driver.L.C09
 open Req.Proto
@@ -31,8 +32,37 @@ def laneLockset : List String → String
     | none => "bad-op"
   | _ => "bad-op"
 
+/-! ### `c09mon <MaxConnsPerHost> <effective MaxIdleConnsPerHost> <MaxIdleConns> <events>`
+events are comma-joined, each `kind.arg.arg…` (decimal):
+0 send t · 1 opened c host · 2 closed c · 3 req c t · 4 respLast c t · 5 mreq c t · 6 mresp c t ·
+7 done t echo ok partial · 8 fail t · 9 sample host idleHost idleTotal connsHost waiters.
+Answer: `ok` or `violation <clause> <event index>`. -/
+
+def parseEv (s : String) : Option Req.Pool.Monitor.Ev :=
+  match (s.splitOn ".").mapM String.toNat? with
+  | some [0, t] => some (.send t)
+  | some [1, c, h] => some (.opened c h)
+  | some [2, c] => some (.closed c)
+  | some [3, c, t] => some (.req c t)
+  | some [4, c, t] => some (.respLast c t)
+  | some [5, c, t] => some (.mreq c t)
+  | some [6, c, t] => some (.mresp c t)
+  | some [7, t, e, ok, p] => some (.done t e (ok != 0) (p != 0))
+  | some [8, t] => some (.fail t)
+  | some [9, h, ih, it, ch, w] => some (.sample h ih it ch w)
+  | _ => none
+
+def laneMon : List String → String
+  | [mc, ih, mi, evs] =>
+    match mc.toNat?, ih.toNat?, mi.toNat?,
+          (if evs == "-" then some [] else (evs.splitOn ",").mapM parseEv) with
+    | some mc, some ih, some mi, some es => Req.Pool.Monitor.verdict ⟨mc, ih, mi⟩ es
+    | _, _, _, _ => "bad-op"
+  | _ => "bad-op"
+
 def lanes : List (String × (List String → String)) := [
-  ("c09lockset", laneLockset)
+  ("c09lockset", laneLockset),
+  ("c09mon", laneMon)
 ]
 
 end Req.Driver.L.C09
